@@ -26,6 +26,16 @@ Fixpoint no_nl (s : string) : bool :=
   | String c r => negb (Ascii.eqb c nl_char) && no_nl r
   end.
 
+(* s.startswith(p); recursion on p so that it computes on a known prefix of an unknown string *)
+Fixpoint starts_with (p s : string) : bool :=
+  match p with
+  | "" => true
+  | String a p' => match s with
+                   | "" => false
+                   | String b s' => Ascii.eqb a b && starts_with p' s'
+                   end
+  end.
+
 Fixpoint drop (n : nat) (s : string) : string :=
   match n, s with
   | O, _ => s
@@ -38,7 +48,7 @@ Fixpoint split_first (sep s : string) : option (string * string) :=
   match s with
   | "" => None
   | String c r =>
-      if prefix sep s then Some ("", drop (String.length sep) s)
+      if starts_with sep s then Some ("", drop (String.length sep) s)
       else match split_first sep r with
            | Some (a, b) => Some (String c a, b)
            | None => None
@@ -82,7 +92,7 @@ Fixpoint do_shorts (shortopts optstring : string) : list string + string :=
   end.
 
 Definition long_match (opt : string) (longopts : list string) : string + string :=
-  let poss := filter (fun o => prefix opt o) longopts in
+  let poss := filter (fun o => starts_with opt o) longopts in
   match poss with
   | [] => inr ("option --" ++ opt ++ " not recognized")
   | [u] => inl (if mem opt poss then opt else u)
@@ -106,9 +116,9 @@ Fixpoint getopt (shortopts : string) (longopts : list string) (args : list strin
   match args with
   | [] => GOk [] []
   | a :: rest =>
-      if prefix "-" a && negb (String.eqb a "-") then
+      if starts_with "-" a && negb (String.eqb a "-") then
         if String.eqb a "--" then GOk [] rest
-        else if prefix "--" a then
+        else if starts_with "--" a then
           match do_long longopts (drop 2 a) with
           | inr m => GErr m
           | inl o => match getopt shortopts longopts rest with
@@ -544,6 +554,10 @@ Definition lib_one (file content infmt : string) (rd : string * res string)
                     else ("", Raise (other "UnexpectedReadStrCall")))
         (fun s m => if String.eqb s stru && String.eqb m outfmt then wr
                     else ("", Raise (other "UnexpectedWriteStrCall"))).
+
+(* a library that gives the same answers whatever it is asked *)
+Definition lib_const (rd wr : string * res string) : library :=
+  mklib (fun _ _ _ => rd) (fun _ _ => rd) (fun _ _ => wr).
 
 Definition fs_one (file : string) (e : fsentry) : string -> fsentry :=
   fun f => if String.eqb f file then e else FsError ("[Errno 2] No such file or directory: '" ++ f ++ "'") "No such file or directory".
